@@ -403,15 +403,16 @@ func (li *layoutInterp) walk(fn *ssa.Function, b, from *ssa.BasicBlock, st *lpat
 					}
 					// contradiction with an earlier choice on the same condition
 					contra := false
+					cs := canonCond(sign, c.cond)
 					for _, prev := range ns.conds {
-						if len(prev) > 1 && prev[1:] == c.cond && prev[:1] != sign && (prev[0] == '+' || prev[0] == '-') {
+						if len(prev) > 1 && prev[1:] == cs[1:] && prev[:1] != cs[:1] && (prev[0] == '+' || prev[0] == '-') {
 							contra = true
 						}
 					}
 					if contra {
 						continue
 					}
-					ns.conds = append(ns.conds, sign+c.cond)
+					ns.conds = append(ns.conds, cs)
 				}
 				li.walk(fn, b.Succs[pol], b, ns, visits, out)
 			}
@@ -472,7 +473,7 @@ func (li *layoutInterp) resume(fn *ssa.Function, b *ssa.BasicBlock, i int, from 
 				if pol == 1 {
 					sign = "-"
 				}
-				ns.conds = append(ns.conds, sign+c.cond)
+				ns.conds = append(ns.conds, canonCond(sign, c.cond))
 				li.walk(fn, b.Succs[pol], b, ns, visits, out)
 			}
 			return
@@ -480,8 +481,16 @@ func (li *layoutInterp) resume(fn *ssa.Function, b *ssa.BasicBlock, i int, from 
 			li.walk(fn, b.Succs[0], b, st, visits, out)
 			return
 		case *ssa.Return:
-			if len(x.Results) == 1 {
+			switch len(x.Results) {
+			case 0:
+			case 1:
 				st.ret = li.eval(st, x.Results[0])
+			default:
+				var t avTuple
+				for _, r := range x.Results {
+					t = append(t, li.eval(st, r))
+				}
+				st.ret = t
 			}
 			*out = append(*out, st)
 			return
@@ -1324,6 +1333,17 @@ func (li *layoutInterp) execCall(fn *ssa.Function, st *lpath, call *ssa.Call) []
 				st.vals[call] = avInt{bv: bvTop(w)}
 				return nil
 			}
+			if dst.region != "buf" && src.region == "in" && dst.len != nil {
+				// decoding: octets of the input land in a local array or an array field of the decoded value
+				if n, isK := dst.len.IsConst(); isK && n >= 0 && n <= 64 && li.envLE(st, dst.len, src.len) {
+					for i := int64(0); i < n; i++ {
+						b := li.readElem(st, src, linConst(i)).resize(8, false)
+						li.storeElem(st, dst, linConst(i), avInt{bv: b})
+					}
+					st.vals[call] = newInt(dst.len, w, true, "copied")
+					return nil
+				}
+			}
 			if dst.region != "buf" {
 				// remember what the temporary holds
 				if strings.HasPrefix(src.region, "f:") {
@@ -1516,6 +1536,10 @@ func (li *layoutInterp) execCall(fn *ssa.Function, st *lpath, call *ssa.Call) []
 	pk := fnPkg(callee).Pkg.Path()
 	name := callee.Name()
 	switch {
+	case pk == utilPath && (name == "UnpackSome" || name == "Unpack"):
+		if src, isSl := li.eval(st, cc.Args[0]).(avSlice); isSl && src.region == "in" {
+			return li.execUnpackGeneric(fn, st, call, name == "UnpackSome")
+		}
 	case pk == utilPath && name == "PackSome":
 		dst, ok := li.eval(st, cc.Args[0]).(avSlice)
 		items, ok2 := li.varargs(st, cc.Args[1])
@@ -2303,4 +2327,35 @@ func (li *layoutInterp) refineBits(st *lpath, v avInt) BV {
 		}
 	}
 	return v.bv
+}
+
+func (li *layoutInterp) envLE(st *lpath, a, b *Lin) bool {
+	if b == nil {
+		return false
+	}
+	return st.env.le(a, b)
+}
+
+// canonCond: a taken branch as signed text; `x != bits` is written as the
+// opposite sign of `x == bits`, so that a decoder or encoder that tests the
+// negated condition yields the same path conditions.
+func canonCond(sign, cond string) string {
+	if i := strings.LastIndex(cond, " != "); i > 0 {
+		rhs := cond[i+4:]
+		bits := rhs != ""
+		for _, ch := range rhs {
+			if ch != '0' && ch != '1' && ch != ' ' {
+				bits = false
+			}
+		}
+		if bits {
+			if sign == "+" {
+				sign = "-"
+			} else {
+				sign = "+"
+			}
+			return sign + cond[:i] + " == " + rhs
+		}
+	}
+	return sign + cond
 }
